@@ -1,6 +1,15 @@
 (* The wake-up protocol shared by the retry / poll / throttle / timeout worker loops (and event.py):
    producers "mutate state, then set the event"; the worker "scans; if nothing to do waits; clears;
-   rescans".  Any number of producers, any interleaving.  Model + proof (C03: no lost wake-up). *)
+   rescans".  Any number of producers, any interleaving.  Model + proof (C03: no lost wake-up).
+
+   The machine is the most general form of the protocol that the real loops use (Model/LoopIR.v runs the
+   loops and producer sites REGENERATED from the source, Gen/LoopSkel.v, and Proofs/LoopIR_Sim.v proves
+   that each of their traces is a trace of this machine):
+     - a producer may mutate several times before its set(), and may set() without a mutation of its own
+       (PollExecutor.notify, a completion callback whose mutation was made by its caller);
+     - the worker may scan again before it waits (an iteration that found something to do and `continue`s);
+     - a wait may end without a set(): the timed waits of the loops (WorkerTimeout).  The theorems do not
+       use the timer: they hold in every reachable state, whether or not a timer ever fires. *)
 From Coq Require Import List Bool Arith Lia.
 From ME Require Import Base.Machine.
 Import ListNotations.
@@ -14,27 +23,27 @@ Inductive ev :=
 | WorkerScan               (* the worker looks at the shared state under its lock and handles what it finds *)
 | WorkerWait               (* event.wait(): returns at once if the flag is set, else blocks *)
 | WorkerWoke               (* a blocked worker that was notified resumes *)
-| WorkerClear.             (* event.clear(), then back to the scan *)
+| WorkerClear              (* event.clear(), then back to the scan *)
+| WorkerTimeout.           (* a blocked worker resumes because its (timed) wait expired *)
 
 Record st := { work : nat; flag : bool; wp : wpc; prod : nat -> ppc }.
 Definition init : st := {| work := 0; flag := false; wp := WScan; prod := fun _ => PIdle |}.
 
 Definition step (s : st) (e : ev) : option st :=
   match e with
-  | ProdMutate t => match prod s t with
-                    | PIdle => Some {| work := S (work s); flag := flag s; wp := wp s; prod := upd (prod s) t PMutated |}
-                    | _ => None end
-  | ProdSet t => match prod s t with
-                 | PMutated => Some {| work := work s; flag := true;
-                                       wp := match wp s with WBlocked _ => WBlocked true | p => p end;
-                                       prod := upd (prod s) t PIdle |}
-                 | _ => None end
-  | WorkerScan => match wp s with WScan => Some {| work := 0; flag := flag s; wp := WWait; prod := prod s |} | _ => None end
+  | ProdMutate t => Some {| work := S (work s); flag := flag s; wp := wp s; prod := upd (prod s) t PMutated |}
+  | ProdSet t => Some {| work := work s; flag := true;
+                         wp := match wp s with WBlocked _ => WBlocked true | p => p end;
+                         prod := upd (prod s) t PIdle |}
+  | WorkerScan => match wp s with
+                  | WScan | WWait => Some {| work := 0; flag := flag s; wp := WWait; prod := prod s |}
+                  | _ => None end
   | WorkerWait => match wp s with
                   | WWait => Some {| work := work s; flag := flag s; wp := if flag s then WClear else WBlocked false; prod := prod s |}
                   | _ => None end
   | WorkerWoke => match wp s with WBlocked true => Some {| work := work s; flag := flag s; wp := WClear; prod := prod s |} | _ => None end
   | WorkerClear => match wp s with WClear => Some {| work := work s; flag := false; wp := WScan; prod := prod s |} | _ => None end
+  | WorkerTimeout => match wp s with WBlocked _ => Some {| work := work s; flag := flag s; wp := WClear; prod := prod s |} | _ => None end
   end.
 
 Definition on_the_way (p : wpc) : bool := match p with WScan | WClear | WBlocked true => true | _ => false end.
@@ -49,17 +58,18 @@ Proof. constructor; simpl; [lia|discriminate]. Qed.
 
 Lemma inv_step s e s' : Inv s -> step s e = Some s' -> Inv s'.
 Proof.
-  intros [Iw Ib] H. destruct e as [t|t| | | |]; simpl in H.
-  - destruct (prod s t) eqn:E; try discriminate. inversion H; subst; clear H. constructor; simpl; auto.
+  intros [Iw Ib] H. destruct e as [t|t| | | | |]; simpl in H.
+  - inversion H; subst; clear H. constructor; simpl; auto.
     intros _. right; left. exists t. apply upd_same.
-  - destruct (prod s t) eqn:E; try discriminate. inversion H; subst; clear H. constructor; simpl; auto.
+  - inversion H; subst; clear H. constructor; simpl; auto.
     destruct (wp s); discriminate.
-  - destruct (wp s) eqn:E; try discriminate. inversion H; subst; clear H. constructor; simpl; [lia|discriminate].
+  - destruct (wp s) eqn:E; try discriminate; inversion H; subst; clear H; constructor; simpl; solve [lia|discriminate].
   - destruct (wp s) eqn:E; try discriminate. inversion H; subst; clear H. constructor; simpl.
     + intros W. destruct (Iw W) as [F|[P|O]]; [rewrite F; auto| |simpl in O; discriminate].
       destruct (flag s); auto.
     + destruct (flag s); [discriminate|auto].
   - destruct (wp s) as [| |[|]|] eqn:E; try discriminate. inversion H; subst; clear H. constructor; simpl; auto; try discriminate.
+  - destruct (wp s) eqn:E; try discriminate. inversion H; subst; clear H. constructor; simpl; auto; try discriminate.
   - destruct (wp s) eqn:E; try discriminate. inversion H; subst; clear H. constructor; simpl; auto; try discriminate.
 Qed.
 
